@@ -226,6 +226,8 @@ def run_schedule(impl, actors_steps, strategy, line=False, dims=None, core_kw=No
             for (step, o, v) in rs:
                 if o.ok and not v:
                     continue
+                if step.get("refused") and not o.ok and o.exc_name() in ("TcpTimeoutException", "AdbTimeoutError"):
+                    continue          # the device refused this stream: the operation fails alone, too
                 if not o.ok and o.exc_name() in ("TcpTimeoutException", "AdbTimeoutError"):
                     # which stream did this call wait on?  its streams are those opened by this actor's thread whose dest matches
                     mine = [x for x in sim.all_streams if actor_thread.get(x.owner) == ai and x.local in dropped]
@@ -239,6 +241,10 @@ def run_schedule(impl, actors_steps, strategy, line=False, dims=None, core_kw=No
                     res["viol"].append({"mechanism": "raised:%s" % (o.exc_name() or o.kind), "detail": "%s: actor %d's %s raised %s" % (where, ai, step["op"], o.brief(160))})
                 else:
                     res["viol"].append({"mechanism": "wrong-result:" + v[0]["mechanism"], "detail": "%s: actor %d: %s" % (where, ai, v[0]["detail"][:200])})
+        for mv in sess.monitor.of("C14"):
+            # two live streams with one local id cannot be told apart: whatever the device sends on one may be taken by the other
+            res["viol"].append({"mechanism": "stream-id-shared", "detail": "%s: %s" % (where, mv.detail)})
+            break
         if nolock:
             res["viol"].append({"mechanism": "transport-call-without-lock", "detail": "%s: actor %d made a transport %s call without holding the transport lock" % (where, nolock[0][0], nolock[0][1])})
         if sess.core.mutex_violations:
@@ -443,6 +449,14 @@ def run_case(case):
                 mine.append(rng.choice(POOL)(k))
                 k += 1
             steps.append(mine)
+        if rng.random() < 0.12:
+            # one actor first asks for a service the device refuses (CLSE instead of OKAY): that operation fails; the others must not notice
+            a = rng.randrange(nact)
+            steps[a].insert(0, dict(sh("refused%d" % a, 1), refused=True, read_timeout_s=rng.choice([0.01, 0.2]), transport_timeout_s=0))
+            stats["schedules_with_refused_open"] = stats.get("schedules_with_refused_open", 0) + 1
+            ckw = {"stall": "eof"}       # an idle transport returns no bytes (0.05 virtual seconds each): the library's own deadline ends the wait for the refused stream
+        else:
+            ckw = None
         dims = {"maxdata": rng.choice([4096, 8192, 65536]), "remote": rng.choice(gen.REMOTE_REGIMES), "id_start": rng.choice(gen.ID_STARTS), "frag": rng.choice(["whole", "minus1"]),
                 "empty_rate": rng.choice([0.0, 0.1]), "noise": []}
         lp = rng.choice([0.02, 0.1, 0.3]) if case.get("line") and case["impl"] == "sync" else 0.0
@@ -450,7 +464,7 @@ def run_case(case):
             strat = sched.PCT(case["seed"], nact, depth=rng.choice([1, 2, 3]), horizon=rng.choice([50, 200, 600]), line_prob=lp)
         else:
             strat = sched.RandomWalk(case["seed"], stay=rng.choice([0.3, 0.6, 0.85]), line_prob=lp)
-        res = run_schedule(case["impl"], steps, strat, line=lp > 0, dims=dims)
+        res = run_schedule(case["impl"], steps, strat, line=lp > 0, dims=dims, core_kw=ckw)
         absorb(res)
         if case["impl"] == "async":
             stats["async_schedules"] += 1
